@@ -188,7 +188,7 @@ def run_sharded(binary, args, start, runs, nproc, digests=None):
 def fault_violation(pid, leg, binary, sd, fault, replay_dir):
     """Turn a process-killing fault into a replay file holding only the operation in flight; confirm it in a fresh child."""
     rc, tr, err = run_worker(binary, ["trace", "--dry", "--scenario", leg.scenario, "--mix", leg.mix, "--seed", sd, "--start", fault["run"],
-                                      "--max-ops", leg.max_ops, "--profile", leg.profile, "--host-build", leg.hb])
+                                      "--max-ops", leg.max_ops, "--profile", leg.profile, "--host-build", leg.hb] + leg.extra)
     if tr is None:
         raise HarnessError("could not dump the trace of the faulting run")
     total = len(tr["ops"])
@@ -200,19 +200,21 @@ def fault_violation(pid, leg, binary, sd, fault, replay_dir):
     tr["violation"] = dict(properties=[pid], invariant="M2", at_op=0,
                            signature="process killed by signal %d:%s:kind=%s:mode=%s" % (fault["sig"], leg.scenario, op.get("kind") if op else "?", op.get("mode") if op else "?"),
                            detail="run %d op %d of %s: the process received signal %d (access outside the caller's buffer) %s" % (fault["run"], fault["op"], leg.name(), fault["sig"], kind))
+    tr["worker_args"] = list(leg.extra)
     path = os.path.join(replay_dir, "%s-fault-%s-%d-%d.json" % (pid, leg.scenario, fault["run"], fault["op"]))
     json.dump(tr, open(path, "w"))
-    p = subprocess.run([binary, "replay", "--file", path], stdout=subprocess.PIPE, stderr=subprocess.PIPE, text=True)
+    p = subprocess.run([binary, "replay", "--file", path] + leg.extra, stdout=subprocess.PIPE, stderr=subprocess.PIPE, text=True)
     if "FAULT sig=" not in p.stdout:
         # the single operation alone does not fault: keep the whole run
         rc, tr2, err = run_worker(binary, ["trace", "--dry", "--scenario", leg.scenario, "--mix", leg.mix, "--seed", sd, "--start", fault["run"],
-                                           "--max-ops", leg.max_ops, "--profile", leg.profile, "--host-build", leg.hb])
+                                           "--max-ops", leg.max_ops, "--profile", leg.profile, "--host-build", leg.hb] + leg.extra)
         tr2["ops"] = tr2["ops"][: fault["op"] + 1]
         tr2["violation"] = tr["violation"]
         tr2["minimised_from"] = total
+        tr2["worker_args"] = list(leg.extra)
         tr = tr2
         json.dump(tr, open(path, "w"))
-        p = subprocess.run([binary, "replay", "--file", path], stdout=subprocess.PIPE, stderr=subprocess.PIPE, text=True)
+        p = subprocess.run([binary, "replay", "--file", path] + leg.extra, stdout=subprocess.PIPE, stderr=subprocess.PIPE, text=True)
         if "FAULT sig=" not in p.stdout:
             raise HarnessError("fault of run %d op %d did not reproduce from its trace" % (fault["run"], fault["op"]))
     tr["replay"] = path
@@ -262,7 +264,7 @@ class Leg:
         self.tiers = tiers
 
     def name(self):
-        return "%s/%s/%s/%s" % (self.scenario, self.mix, self.hb, self.profile)
+        return "%s/%s/%s/%s%s" % (self.scenario, self.mix, self.hb, self.profile, ("/" + "".join(self.extra).replace("--", "")) if self.extra else "")
 
 
 class Cross:
@@ -280,8 +282,8 @@ class Cross:
 PROPS = {}
 
 
-def prop(pid, level, rule, assumptions, legs, real_vs_stub, cross=None, streams=None, selftest=False, miri=False, miri_mem=False, be_host=None, huge=None):
-    PROPS[pid] = dict(level=level, rule=rule, assumptions=assumptions, legs=legs, real_vs_stub=real_vs_stub, cross=cross or [], streams=streams or [], selftest=selftest, miri=miri, miri_mem=miri_mem, be_host=be_host, huge=huge or [])
+def prop(pid, level, rule, assumptions, legs, real_vs_stub, cross=None, streams=None, selftest=False, miri=False, miri_mem=False, be_host=None, huge=None, memcheck=None):
+    PROPS[pid] = dict(memcheck=memcheck, level=level, rule=rule, assumptions=assumptions, legs=legs, real_vs_stub=real_vs_stub, cross=cross or [], streams=streams or [], selftest=selftest, miri=miri, miri_mem=miri_mem, be_host=be_host, huge=huge or [])
 
 
 REAL = "real code: every algorithm, buffer and dispatch path of the crates under /repo, built from the working tree"
@@ -429,6 +431,8 @@ prop(
         Leg("std", "dev", "hash_stream", "C08", 8000, 150000, max_ops=30),
         Leg("portable", "checked", "hash_stream", "C08", 20000, 1000000, max_ops=30, tiers=("thorough",)),
         Leg("std-native", "release", "hash_stream", "C08", 100000, 1000000, max_ops=30),
+        Leg("std", "release", "hash_stream", "C08", 50000, 1000000, max_ops=30, extra=["--groestl-level", "2"]),
+        Leg("std", "checked", "hash_stream", "C08", 0, 1000000, max_ops=30, extra=["--groestl-level", "1"]),
     ],
     [REAL, STUB],
     # the whole message in ONE update call (and through Digest::digest) against the same bytes in 1 MiB-3 pieces:
@@ -510,9 +514,14 @@ prop(
         Leg("portable", "release", "mem", "C16enum", -1, -1, max_ops=192, sharded=True),
         Leg("portable", "release", "mem", "C16", 0, 300000, max_ops=40, sharded=True),
         Leg("std-native", "release", "mem", "C16enum", -1, -1, max_ops=192, sharded=True),
+        # hook H3: the Groestl fallback compressor variants (run-time detection answers "no AES-NI" / "no SSSE3")
+        Leg("std", "release", "mem", "C16enum", -1, -1, max_ops=192, sharded=True, extra=["--groestl-level", "2"]),
+        Leg("std", "release", "mem", "C16enum", 0, -1, max_ops=192, sharded=True, extra=["--groestl-level", "1"]),
+        Leg("std", "release", "mem", "C16", 20000, 300000, max_ops=40, sharded=True, extra=["--groestl-level", "1"]),
     ],
     [REAL, STUB + "; second pass: Miri interprets the real crates (portable SIMD backend, Groestl on AES-NI shims) with every slice an exact-size allocation"],
     miri_mem=True,
+    memcheck={"quick": 640, "thorough": 8000},
     huge=[
         dict(what="hash:Groestl256", len=2 * (1 << 30) + 81),
         dict(what="cipher:ChaCha20", len=4 * (1 << 30) + 3, pre=27),
@@ -603,7 +612,7 @@ prop(
     "with_tweak and shared keys) in one thread, calls interleaved by the seeded scheduler at call granularity on a simulated host; afterwards every instance's own operations are "
     "replayed alone in a fresh world on a fresh thread and its transcript (per-instance event-log digest) must be identical; an inner check that fails only when interleaved is a violation too. "
     "(b) one case = one cold process under a controlled scheduler: the thread workload (2-4 threads released by a barrier; in every workload ALL threads make the same kind of FIRST call - "
-    "the focus kind cycles over 31 operation kinds (hash types, ciphers, Threefish, block API) with the workload index, which one Miri seed selects together with the schedule - so that threads race on "
+    "the focus kind cycles over 37 operation kinds (hash types, ciphers, Threefish, block API, long single calls of several KiB) with the workload index, which one Miri seed selects together with the schedule - so that threads race on "
     "whatever that call initialises lazily in a cold process; then short mixed histories on private instances) runs in a "
     "fresh Miri interpreter per scheduler seed; Miri's seeded scheduler decides every preemption, its data-race/deadlock detector is on, and every result is compared with the "
     "sequential one-at-a-time expectation computed natively. distinct_nontrivial = distinct abstract states of layer (a) (kind of instance, history length class, op kind) + underlying scenarios",
@@ -740,6 +749,12 @@ def run_property(pid, tier):
             run_cross(pid, cross, tier, sd, replay_dir, absorb, violations, known)
         except HarnessError as e:
             harness_error = str(e)
+    memcheck_results = []
+    if spec.get("memcheck") and not harness_error:
+        try:
+            run_memcheck(pid, spec["memcheck"], tier, sd, replay_dir, memcheck_results, violations, known)
+        except HarnessError as e:
+            harness_error = str(e)
     huge_results = []
     if spec.get("huge") and not harness_error:
         try:
@@ -776,8 +791,10 @@ def run_property(pid, tier):
     total_runs, total_ops = acc["total_runs"], acc["total_ops"]
     wall = time.time() - t0
     extra = None
+    if memcheck_results:
+        extra = dict(memcheck_pass=memcheck_results)
     if huge_results:
-        extra = dict(huge_single_calls=huge_results)
+        extra = dict(extra or {}, huge_single_calls=huge_results)
         total_runs += len(huge_results)
     if be_results:
         extra = dict(extra or {}, big_endian_host=be_results)
@@ -863,7 +880,7 @@ def classify_miri(out):
     return "abnormal exit"
 
 
-NW = 62
+NW = 74
 
 
 def be_dirs():
@@ -1113,6 +1130,72 @@ def run_miri_layer(pid, tier, sd, replay_dir, results, violations, known, others
             violations.append(f)
         break  # one reproduced violation is enough; Miri is slow
     return total, time.time() - t0
+
+
+VALGRIND = ["valgrind", "-q", "--error-exitcode=9", "--partial-loads-ok=no", "--undef-value-errors=no"]
+
+
+def run_memcheck(pid, spec_mc, tier, sd, replay_dir, results, violations, known):
+    """Third pass of S5: the NATIVE SIMD code paths (which Miri cannot run) on exact-size heap blocks under valgrind's
+    memcheck - a synthetic CPU that checks every access against the allocation it belongs to at byte granularity: it sees an
+    over-read that stays inside mapped memory (and therefore inside what a guard page can see)."""
+    import re
+    runs = spec_mc[tier]
+    if not runs:
+        return
+    if shutil.which("valgrind") is None:
+        results.append(dict(skipped="valgrind is not installed"))
+        return
+    binary = build("std", "release")
+    nproc = NCPU
+    per = (runs + nproc - 1) // nproc
+    procs = []
+    for i in range(nproc):
+        a = VALGRIND + [binary, "run", "--scenario", "mem", "--mix", "C16heap", "--seed", str(sd), "--start", str(i * per), "--runs", str(per), "--threads", "1",
+                        "--max-ops", "40", "--progress", "--recheck-every", "0"]
+        procs.append((i * per, a, subprocess.Popen(a, stdout=subprocess.PIPE, stderr=subprocess.PIPE, text=True)))
+    total_ops = 0
+    t0 = time.time()
+    bad = None
+    for start, a, p in procs:
+        so, se = p.communicate()
+        try:
+            out = json.loads(so.strip().splitlines()[-1])
+            total_ops += out["ops"]
+        except (ValueError, IndexError):
+            out = None
+        if p.returncode == 9 and bad is None:
+            run = None
+            for line in se.splitlines():
+                m = re.match(r"RUN (\d+)", line)
+                if m:
+                    run = int(m.group(1))
+                elif line.startswith("==") and ("Invalid" in line or "uninitialised" in line):
+                    break
+            report = "\n".join(l for l in se.splitlines() if l.startswith("=="))[:1500]
+            bad = (run, report)
+        elif p.returncode not in (0, 1, 9) or out is None:
+            log(se[-2000:])
+            raise HarnessError("memcheck worker failed rc=%s" % p.returncode)
+    results.append(dict(tool="valgrind memcheck (--partial-loads-ok=no)", runs=per * nproc, operations=total_ops, ok=bad is None, wall_s=round(time.time() - t0, 1),
+                        what="S5 operations with every slice the head or the tail of an exact-size heap block; native x86 SIMD backends on all simulated host levels"))
+    log("[%s] memcheck pass: %d runs, %d operations under valgrind: %s" % (pid, per * nproc, total_ops, "ok" if bad is None else "FAILED in run %s" % bad[0]))
+    if bad is None:
+        return
+    run, report = bad
+    kind = "invalid read" if "Invalid read" in report else "invalid write" if "Invalid write" in report else "memcheck error"
+    sig = "memcheck on exact-size heap blocks:%s" % kind
+    argv = ["run", "--scenario", "mem", "--mix", "C16heap", "--seed", str(sd), "--start", str(run if run is not None else 0), "--runs", "1", "--threads", "1", "--max-ops", "40", "--recheck-every", "0"]
+    f = dict(kind="memcheck", argv=argv, ops=[], minimised_from=1,
+             violation=dict(properties=[pid], invariant="M4", signature=sig, at_op=0, detail="run %s: %s" % (run, report)))
+    path = os.path.join(replay_dir, "%s-memcheck-%s.json" % (pid, run))
+    json.dump(f, open(path, "w"))
+    f["replay"] = path
+    kf = open_finding_for(pid, sig)
+    if kf:
+        known.append((kf, f))
+    else:
+        violations.append(f)
 
 
 def run_huge(pid, entries, tier, sd, replay_dir, results, violations, known):
@@ -1384,7 +1467,7 @@ def replay(pid, path):
         meta = j.get("meta", {})
         binary = build(meta.get("host_build", "std"), meta.get("profile", "release"))
         b = j["batch"]
-        rc, out, err = run_worker(binary, ["run", "--scenario", j["scenario"], "--mix", j["mix"], "--seed", j["verif_seed"], "--start", b["start"], "--runs", b["runs"], "--threads", 1, "--max-ops", b["max_ops"]])
+        rc, out, err = run_worker(binary, ["run", "--scenario", j["scenario"], "--mix", j["mix"], "--seed", j["verif_seed"], "--start", b["start"], "--runs", b["runs"], "--threads", 1, "--max-ops", b["max_ops"]] + [str(a) for a in j.get("worker_args", [])])
         if out is None:
             print("HARNESS-ERROR: batch replay failed rc=%s" % rc)
             return 2
@@ -1398,6 +1481,18 @@ def replay(pid, path):
             print("  (batch prefix of %d runs) %s" % (b["runs"], same[0]["violation"]["detail"]))
             return 1
         print("OK replay: the batch prefix passes on this tree")
+        return 0
+    if j.get("kind") == "memcheck":
+        p = subprocess.run(VALGRIND + [build("std", "release")] + j["argv"], stdout=subprocess.PIPE, stderr=subprocess.PIPE, text=True)
+        if p.returncode == 9:
+            kf = open_finding_for(pid, j["violation"]["signature"])
+            if kf:
+                print("KNOWN-FINDING: property=%s %s" % (pid, kf.get("what")))
+                return 0
+            print("VIOLATION property=%s replay=%s" % (pid, path))
+            print("  " + "\n  ".join(l for l in p.stderr.splitlines() if l.startswith("=="))[:700])
+            return 1
+        print("OK replay: memcheck is clean for this run on this tree")
         return 0
     if j.get("kind") == "huge":
         a = [build("std", "release")] + j["argv"]
@@ -1504,7 +1599,8 @@ def replay(pid, path):
     hb = meta.get("host_build", "std")
     profile = meta.get("profile", "release")
     binary = build(hb, profile)
-    pr = subprocess.run([binary, "replay", "--file", path], stdout=subprocess.PIPE, stderr=subprocess.PIPE, text=True)
+    wargs = [str(a) for a in j.get("worker_args", [])]
+    pr = subprocess.run([binary, "replay", "--file", path] + wargs, stdout=subprocess.PIPE, stderr=subprocess.PIPE, text=True)
     if "FAULT sig=" in pr.stdout:
         sig = j.get("violation", {}).get("signature", "")
         kf = open_finding_for(pid, sig)
@@ -1514,7 +1610,7 @@ def replay(pid, path):
         print("VIOLATION property=%s replay=%s" % (pid, path))
         print("  " + pr.stdout.strip().splitlines()[-1])
         return 1
-    rc, out, err = run_worker(binary, ["replay", "--file", path])
+    rc, out, err = run_worker(binary, ["replay", "--file", path] + wargs)
     if out is None:
         log(err[-3000:])
         print("HARNESS-ERROR: replay worker failed rc=%s" % rc)
@@ -1613,9 +1709,9 @@ def selftest_determinism():
                     print("NONDETERMINISTIC: %s/%s/%s at %d workers: %d of %d seeds differ, first run index %s" % (sc, mix, profile, threads, len(diff), len(ref), diff[:3]))
             log("[determinism] %s/%s/%s: 4 executions x 2000 seeds compared" % (sc, mix, profile))
     native = miri_native()
-    exp = subprocess.run([native, "expected", "7", "62"], stdout=subprocess.PIPE, text=True).stdout.strip()
-    r1 = miri_run(7, 62, exp, 100, 104, "0.2")
-    r2 = miri_run(7, 62, exp, 100, 104, "0.2")
+    exp = subprocess.run([native, "expected", "7", "74"], stdout=subprocess.PIPE, text=True).stdout.strip()
+    r1 = miri_run(7, 74, exp, 100, 104, "0.2")
+    r2 = miri_run(7, 74, exp, 100, 104, "0.2")
     w1 = sorted(l for l in r1[1].splitlines() if l.startswith("WORKLOAD"))
     w2 = sorted(l for l in r2[1].splitlines() if l.startswith("WORKLOAD"))
     if w1 != w2:
